@@ -418,7 +418,8 @@ class Task(object):
 
             # tuple (task_id, key_name)
             parts = desc
-            if isinstance(parts, str) or len(parts) != 2:
+            if (not isinstance(parts, (tuple, list)) or len(parts) != 2
+                    or not isinstance(parts[0], str)):
                 raise InvalidTask(
                     f"Taskid '{self.name}' - Invalid format for getargs of '{arg_name}'."
                     "Should be tuple with 2 elements"
